@@ -371,7 +371,19 @@ func parentMain() int {
 			}
 			continue
 		}
-		if p.RaceAttr != nil && p.RaceAttr(rb) {
+		mine := p.RaceAttr != nil && p.RaceAttr(rb)
+		if !mine {
+			// a block no property's table claims belongs to the property whose workload is running
+			claimed := false
+			for _, q := range registry {
+				if q.RaceAttr != nil && q.RaceAttr(rb) {
+					claimed = true
+					break
+				}
+			}
+			mine = !claimed
+		}
+		if mine {
 			raceHere++
 			k := rb.Key()
 			raceKeys[k]++
